@@ -18,6 +18,14 @@
    dictionary for that call: the FileSet object keeps its defaults over every history of calls (calls_keep_object,
    args_do_not_stick).
 
+   A move with conversion that FAILS for some of the selected files (the user's convert function raises for an object,
+   the handler of the target cannot store it) conserves the files too: move_failure_conserves -- every selected file is
+   afterwards either moved (converted content under its target name, original removed unless copy) or untouched at
+   its source with nothing under its target name; a file whose conversion fails is of the second kind; no other path
+   changes.  WHICH of the files that could be converted have been moved when move() raises is NOT determined (the
+   workers of FileSet.map run in parallel): `done` is universally quantified.  move_given_sound is the form the
+   harness evaluates on the tree observed after such a move; move_sequential the special case of one worker.
+
    NOT PROVED (named gaps):
      * end-field sets other than none / as complete as the start / a sub-day suffix (not proved in C02 either).
      * the order in which worker threads / processes of FileSet.map treat the selected files (property C10): the model
@@ -53,6 +61,11 @@ Notation moved := (moved Data Bytes enc dec pack unpack).
 Notation new_content := (new_content Data Bytes enc dec pack unpack).
 Notation untouched := (untouched Data Bytes enc dec pack unpack).
 Notation entry_of := (entry_of Data).
+Notation move1p := (move1p Data Bytes enc dec pack unpack).
+Notation move_part := (move_part Data Bytes enc dec pack unpack).
+Notation movep := (movep Data Bytes enc dec pack unpack).
+Notation move_given := (move_given Data Bytes enc dec pack unpack).
+Notation new_contentp := (new_contentp Data Bytes enc dec pack unpack).
 
 (* CORE (DESIGN section 10, rung 2).  move / copy, with or without conversion: when the names the target template
    generates for the selected files are pairwise distinct and do not exist yet, then after a move that did not raise
@@ -224,6 +237,67 @@ Theorem explicit_selection : forall (F : fset) sl (d : disk) ps, s_files sl = So
   find F sl d = Good (flat_map (entry_of F) ps).
 Proof. exact (explicit_selection_thm Data Bytes). Qed.
 
+(* ---- a move that fails half way.  conv : Data -> option Data, None = the user's convert function raises for this
+   object; `encode G y q = None` = the handler of the target cannot store y.  new_contentp ... = Good c: the bytes the
+   target gets; = Bad e: this file cannot be converted.
+
+   CONSERVATION: es = the selected files, qs their target names (pairwise distinct and fresh, every file exists: the
+   hypotheses of move_conserves); done = ANY set of selected files, in ANY order -- the files whose worker ran to its
+   end before move() raised.  Then, on the disk d' they leave: every selected file is EITHER in done, and then its
+   converted content is under its target name and the original is gone (kept iff copy), OR not in done, and then it is
+   still at its source with the content b it had and there is NOTHING under its target name;  a file whose conversion
+   fails is never in done (so it is still at its source, with its content);  no other path has changed.
+   The content of every selected file is therefore in exactly one of the two places (in both for copy): the multiset
+   of contents, up to conversion, is conserved whatever the workers managed to do. *)
+Theorem move_failure_conserves : forall (F G : fset) copy conv (d d' : disk) es qs done,
+  Forall2 (fun en q => target G en = Ok q) es qs ->
+  NoDup (map e_path es) -> NoDup qs ->
+  (forall q, In q qs -> dlook q d = None) ->
+  (forall en, In en es -> dlook (e_path en) d <> None) ->
+  incl done es -> NoDup (map e_path done) ->
+  move_part F G copy conv done d = Good d' ->
+  Forall2 (fun en q => target G en = Ok q /\ exists b, dlook (e_path en) d = Some b /\
+      ((In en done /\ exists c, new_contentp F G conv en q b = Good c /\ dlook q d' = Some c /\
+                                 dlook (e_path en) d' = (if copy then Some b else None))
+       \/ (~ In en done /\ dlook (e_path en) d' = Some b /\ dlook q d' = None))) es qs /\
+  (forall en q b e, In en es -> target G en = Ok q -> dlook (e_path en) d = Some b ->
+                    new_contentp F G conv en q b = Bad e -> ~ In en done) /\
+  (forall r, ~ In r (map e_path es) -> ~ In r qs -> dlook r d' = dlook r d).
+Proof. exact (move_failure_conserves_thm Data Bytes enc dec pack unpack). Qed.
+
+(* the form the harness evaluates: d' = the tree OBSERVED after the move (whether it raised or not).  When the model's
+   move of exactly the files that are present under their target names on d' (move_given) reproduces d', then every
+   selected file is moved or untouched, every file whose conversion fails is untouched at its source with nothing
+   at its target, and no other path has changed.  movep_hyp = move_hyp (move_hyp_sound) and every selected file exists *)
+Theorem move_given_sound : forall (F G : fset) copy conv sl (d d' d'' : disk),
+  movep_hyp Data Bytes F G sl d = true ->
+  move_given F G copy conv sl d d' = Good d'' -> (forall r, dlook r d'' = dlook r d') ->
+  let es := entries F sl d in
+  find F sl d = Good es /\
+  (forall en, In en es -> exists q b, target G en = Ok q /\ dlook (e_path en) d = Some b /\
+      ((exists c, new_contentp F G conv en q b = Good c /\ dlook q d' = Some c /\
+                  dlook (e_path en) d' = (if copy then Some b else None))
+       \/ (dlook (e_path en) d' = Some b /\ dlook q d' = None)) /\
+      (forall e, new_contentp F G conv en q b = Bad e -> dlook (e_path en) d' = Some b /\ dlook q d' = None)) /\
+  (forall r, ~ In r (map e_path es) -> ~ In r (targets_of G es) -> dlook r d' = dlook r d).
+Proof. exact (move_given_sound_thm Data Bytes enc dec pack unpack). Qed.
+
+(* one worker after the other (max_workers = 1): the files before the first one that fails are done, the failing one
+   raises on the disk they leave, the rest is not begun -- an instance of `done` above *)
+Theorem move_sequential : forall (F G : fset) copy conv sl (d d' : disk) r,
+  movep F G copy conv sl d = Good (d', r) ->
+  exists es done rest, find F sl d = Good es /\ es = done ++ rest /\ move_part F G copy conv done d = Good d' /\
+    match r with
+    | None => rest = []
+    | Some e => exists en rest', rest = en :: rest' /\ move1p F G copy conv d' en = Bad e
+    end.
+Proof. exact (move_sequential_thm Data Bytes enc dec pack unpack). Qed.
+
+(* a conversion that never fails: the move of move_conserves *)
+Theorem move_total_conversion : forall (F G : fset) copy conv (d : disk) en,
+  move1p F G copy (option_map (fun f x => Some (f x)) conv) d en = move1 Data Bytes enc dec pack unpack F G copy conv d en.
+Proof. exact (move1p_total Data Bytes enc dec pack unpack). Qed.
+
 (* ---- arguments of a single call.  `kcode` = what a keyword dictionary means to the handler. *)
 Variable kcode : kwargs -> Z.
 Notation fobj := (@fobj Data).
@@ -361,6 +435,48 @@ Example nonvacuous_call_args :
     (TGood [("R/a/20180101.pkl"%string, [1; 29])] (TData 120), [("offset"%string, 3)], [("offset"%string, 3)]).
 Proof. cbv zeta. repeat split; vm_compute; reflexivity. Qed.
 
+(* non-vacuity of the failing move, on the instance the harness runs: three pickle files (written with write_args 3,
+   read with read_args 3 and a post_reader adding 100: the source hands 110, 120, 130 to the convert function) are
+   moved with conversion to a doy template with a JSON handler and .gz.  The convert function raises for 120 (the file
+   of 2018-01-01) and adds 5 otherwise.  The hypotheses hold (movep_hyp); exactly that file is reported as failing; one
+   worker after the other moves the first file and stops (EConvert); when the workers also got the THIRD file through
+   (observed tree `after`), the tree the property prescribes is `after` itself: the failing file is at its source with
+   its content [1; 23], nothing is under its target name.  Had its original been removed (tree `lost`), the
+   prescribed tree differs from the observed one (the file is missing there).  The same with a target handler that
+   cannot store 125 = 120 + 5. *)
+Example nonvacuous_failing_move :
+  let F : t_fset := FSet [Lit (s2l "R/a/"); T false FYear; Lit (s2l "/"); T false FMonth; Lit (s2l "/"); T false FDay;
+                 Lit (s2l "/"); T false FHour; T false FMinute; T false FSecond; Lit (s2l ".pkl")] None 1 3 3 (Z.add 100) true true in
+  let G : t_fset := FSet [Lit (s2l "R/b/"); T false FYear; T false FDoy; Lit (s2l "T");
+                 T false FHour; T false FMinute; T false FSecond; Lit (s2l ".json.gz")] None 2 0 0 (fun x => x) true true in
+  let d := [("R/a/2017/12/31/230000.pkl"%string, [1; 13]); ("R/a/2018/01/01/120000.pkl"%string, [1; 23]);
+            ("R/a/2018/01/03/060000.pkl"%string, [1; 33])] in
+  let after := [("R/b/2017365T230000.json.gz"%string, [11; 2; 115]); ("R/a/2018/01/01/120000.pkl"%string, [1; 23]);
+                ("R/b/2018003T060000.json.gz"%string, [11; 2; 135])] in
+  let lost := [("R/b/2017365T230000.json.gz"%string, [11; 2; 115]); ("R/b/2018003T060000.json.gz"%string, [11; 2; 135])] in
+  let sl := Sel 0 315537897599999999 [] [] None in
+  let conv := Some (t_convp 5 (Some 120)) in
+  run_movep None F G false conv sl d after =
+    (TBad EConvert,
+     TGood [("R/b/2018003T060000.json.gz"%string, [11; 2; 135]); ("R/b/2017365T230000.json.gz"%string, [11; 2; 115]);
+            ("R/a/2018/01/01/120000.pkl"%string, [1; 23])] TNone,
+     ["R/a/2018/01/01/120000.pkl"%string], true) /\
+  movep Z (list Z) t_enc t_dec t_pack t_unpack F G false conv sl (in_disk d) =
+    Good (in_disk [("R/b/2017365T230000.json.gz"%string, [11; 2; 115]); ("R/a/2018/01/01/120000.pkl"%string, [1; 23]);
+                   ("R/a/2018/01/03/060000.pkl"%string, [1; 33])], Some EConvert) /\
+  (let '(_, given, _, _) := run_movep None F G false conv sl d lost in
+   given = TGood [("R/b/2018003T060000.json.gz"%string, [11; 2; 135]); ("R/b/2017365T230000.json.gz"%string, [11; 2; 115]);
+                  ("R/a/2018/01/01/120000.pkl"%string, [1; 23])] TNone) /\
+  run_movep (Some 125) F G false (Some (t_convp 5 None)) sl d after =
+    (TBad EHandler,
+     TGood [("R/b/2018003T060000.json.gz"%string, [11; 2; 135]); ("R/b/2017365T230000.json.gz"%string, [11; 2; 115]);
+            ("R/a/2018/01/01/120000.pkl"%string, [1; 23])] TNone,
+     ["R/a/2018/01/01/120000.pkl"%string], true) /\
+  run_movep None F G false (Some (t_convp 5 None)) sl d [] =
+    (TGood [("R/b/2018003T060000.json.gz"%string, [11; 2; 135]); ("R/b/2018001T120000.json.gz"%string, [11; 2; 125]);
+            ("R/b/2017365T230000.json.gz"%string, [11; 2; 115])] TNone, TGood d TNone, [], true).
+Proof. cbv zeta. repeat split; vm_compute; reflexivity. Qed.
+
 Print Assumptions move_conserves.
 Print Assumptions move_conserves_period.
 Print Assumptions move_succeeds.
@@ -379,6 +495,10 @@ Print Assumptions step_frame.
 Print Assumptions history_frame.
 Print Assumptions empty_selection_noop.
 Print Assumptions explicit_selection.
+Print Assumptions move_failure_conserves.
+Print Assumptions move_given_sound.
+Print Assumptions move_sequential.
+Print Assumptions move_total_conversion.
 Print Assumptions read_with_args.
 Print Assumptions write_with_args.
 Print Assumptions calls_keep_object.
